@@ -13,7 +13,10 @@ import BytomModel.Drv.Util
    base32enc <data>               → <string>
    base32dec <string>             → ok <data> | err <offset> <data>
    mnnew <lang> <entropy>         → ok <i,i,…> | err <kind>
-   mnent <lang> <i,i,x,…>         → ok <entropy> | err <kind>      (x = word not in the list) -/
+   mnent <lang> <i,i,x,…>         → ok <entropy> | err <kind>      (x = word not in the list)
+   mnstr <lang> <ws-variant> <i,i,x,…> → ok <entropy> valid=<b> | err <kind> valid=<b>
+        (the sentence is joined with irregular white space; EntropyFromMnemonic and IsMnemonicValid
+         split with strings.Fields, so the answer does not depend on the variant) -/
 namespace BytomModel.Drv.C29
 open BytomModel.Drv BytomModel
 
@@ -79,6 +82,13 @@ def step (_ : Unit) (line : String) : Unit × String :=
       | some b => match Mnemonic.newMnemonicIdx ck b with
         | .ok idx => s!"ok {showIdx idx}"
         | .error e => s!"err {e.name}"
+      | none => "bad-op"
+    | ["mnstr", _, _, idx] => match parseIdx idx with
+      | some l =>
+        let v := toString (Mnemonic.isMnemonicValidIdx l)
+        match Mnemonic.entropyFromIdx ck l with
+        | .ok e => s!"ok {showB e} valid={v}"
+        | .error e => s!"err {e.name} valid={v}"
       | none => "bad-op"
     | ["mnent", _, idx] => match parseIdx idx with
       | some l => match Mnemonic.entropyFromIdx ck l with
